@@ -10,6 +10,10 @@ package main
 //     connection (through the exported Conn.Update) before the template is produced and releasing them one by one
 //     ("Notify cid" events). Consequence (documented limitation): a connection's own login/submit cannot be
 //     scheduled between a template and that connection's notification in the scripted part.
+//     In the scenario scripts (Run.multi) a further template may be produced while a connection is still held:
+//     the goroutines of several SendJob calls are then queued on that connection's lock - overlapping broadcasts.
+//     When the lock is released they run in an order the harness does not control; it reads the order back from
+//     the connection's own job list (Conn.View) and records one Notify event per critical section in that order.
 //   * a found block makes AddBlock start `go NewStratumJob(true)`: the harness holds the locks of the other
 //     connections during a submit, detects the new top block, waits for the submitter's own notification and
 //     records the automatic template as events of the script.
@@ -34,6 +38,7 @@ import (
 	"github.com/virel-project/virel-blockchain/v3/p2p"
 	"github.com/virel-project/virel-blockchain/v3/stratum/stratumsrv"
 	"github.com/virel-project/virel-blockchain/v3/util"
+	"github.com/virel-project/virel-blockchain/v3/util/uint128"
 )
 
 // serialDB serialises Update calls the way LMDB serialises writers (memdb.Update clones, runs and swaps:
@@ -82,9 +87,11 @@ type jobMsg struct {
 }
 
 type sentJob struct {
-	JobID string
-	Blob  []byte
-	Tpl   int // template content class the harness attributes the blob to (0 = unknown)
+	JobID  string
+	Blob   []byte
+	Tpl    int    // template content class the harness attributes the blob to (0 = unknown)
+	Target []byte // the target bytes sent with the job
+	Height uint64 // the height sent with the job
 }
 
 type Miner struct {
@@ -100,15 +107,16 @@ type Miner struct {
 	alive   bool
 	held    bool
 	release chan struct{}
-	pending bool
+	pendK   []int // numbers of the SendJob calls whose goroutine for this connection is waiting for the connection's lock
 	sent    []sentJob
 	nextId  int
 }
 
 type tplInfo struct {
-	ptr  *block.Block
-	copy block.Block // taken right after SendJob's prologue; only fields no job ever changes are used
-	num  int         // k-th template the server produced
+	ptr     *block.Block
+	copy    block.Block     // taken right after SendJob's prologue; only fields no job ever changes are used
+	mindiff uint128.Uint128 // Server.LastMinDiff read together with LastBlock: the diff argument of that SendJob call
+	num     int             // k-th template the server produced
 	// content class: two templates that differ only in timestamp and extra nonce (same height, parent,
 	// transactions, ...) have the same base hash, hence the same own-chain hashing id for a given recipient;
 	// the model's b_tpl is this class, not the template's number.
@@ -213,13 +221,14 @@ func (w *World) foreignId(h [32]byte) uint64 {
 func (w *World) registerTemplate() *tplInfo {
 	w.bc.Stratum.RLock()
 	p := w.bc.Stratum.LastBlock
+	md := w.bc.Stratum.LastMinDiff
 	w.bc.Stratum.RUnlock()
 	for _, t := range w.tpls {
 		if t.ptr == p {
 			return t
 		}
 	}
-	t := &tplInfo{ptr: p, copy: *p, num: len(w.tpls) + 1}
+	t := &tplInfo{ptr: p, copy: *p, mindiff: md, num: len(w.tpls) + 1}
 	w.tpls = append(w.tpls, t)
 	b0 := t.copy
 	b0.Recipient = address.INVALID_ADDRESS
@@ -384,6 +393,8 @@ func (m *Miner) hold() {
 	<-acq
 	m.held = true
 }
+func (m *Miner) pending() bool { return len(m.pendK) > 0 }
+
 func (m *Miner) unhold() {
 	if m.held {
 		close(m.release)
@@ -428,7 +439,7 @@ func (w *World) drop(m *Miner) {
 	w.bc.Stratum.Kick(m.conn)
 	w.bc.Stratum.Unlock()
 	m.alive = false
-	m.pending = false
+	m.pendK = nil
 }
 
 func (w *World) closeAll() {
